@@ -1549,6 +1549,22 @@ impl TypeLayout {
         format!("\n        + available properties are: [{result}{remaining_message}]{check_export_message}")
     }
 
+    /// Whether a list somewhere inside of this type has no element type at all, as the literal `[]` does.
+    /// Such a list fits every `[T...]`, so a name bound to it could be handed to two lists of
+    /// different element types that are in fact one list.
+    pub fn has_list_without_element_type(&self) -> bool {
+        match self {
+            Self::List(ListType::Mixed(types)) => {
+                types.is_empty() || types.iter().any(|ty| ty.has_list_without_element_type())
+            }
+            Self::List(ListType::Open(ty)) => ty.has_list_without_element_type(),
+            Self::Optional(Some(ty)) => ty.has_list_without_element_type(),
+            Self::CallbackVariable(ty) => ty.has_list_without_element_type(),
+            Self::Alias(_, ty) => ty.has_list_without_element_type(),
+            _ => false,
+        }
+    }
+
     pub fn can_be_used_as_list_index(&self) -> bool {
         // a captured `int` is an `int` behind a callback wrapper
         matches!(
@@ -2036,6 +2052,10 @@ impl Parser {
                 }
                 other_rule => unreachable!("{other_rule:?}"),
             }
+        }
+
+        if type_vec.is_empty() {
+            bail!("`[]` does not say what the list holds; a growable list is spelled `[TYPE...]`")
         }
 
         Ok(ListType::Mixed(type_vec))
